@@ -577,6 +577,29 @@ func c09TensorOf(k *fw.K, c *fw.Ctx) {
 		return r
 	}
 	chk(k, "TensorOf", "depth0", "scalar", okShape([]int{}), func() (tensor.Tensor, error) { return tensor.TensorOf(3.5, nil) })
+	// every device value of [-2, 6] with valid data of every depth: only CPU is a device, everything else is an error (not a panic)
+	for _, dev := range c09Ints {
+		dev := dev
+		conf := &tensor.Config{Device: tensor.Device(dev), GradTrack: dev%2 == 0}
+		e := func(shape []int) expect {
+			if tensor.Device(dev) == tensor.CPU {
+				return okShape(shape)
+			}
+			return expect{}
+		}
+		cls := fmt.Sprintf("device%d", dev)
+		chk(k, "TensorOf", cls, "scalar", e([]int{}), func() (tensor.Tensor, error) { return tensor.TensorOf(2.5, conf) })
+		chk(k, "TensorOf", cls, "depth 1", e([]int{3}), func() (tensor.Tensor, error) { return tensor.TensorOf(row(3), conf) })
+		chk(k, "TensorOf", cls, "depth 2", e([]int{2, 3}), func() (tensor.Tensor, error) { return tensor.TensorOf([][]float64{row(3), row(3)}, conf) })
+		chk(k, "TensorOf", cls, "depth 3", e([]int{1, 2, 2}), func() (tensor.Tensor, error) { return tensor.TensorOf([][][]float64{{row(2), row(2)}}, conf) })
+		chk(k, "TensorOf", cls, "depth 4", e([]int{1, 1, 2, 1}), func() (tensor.Tensor, error) {
+			return tensor.TensorOf([][][][]float64{{{row(1), row(1)}}}, conf)
+		})
+		chk(k, "Full", cls, "dims [2 2]", e([]int{2, 2}), func() (tensor.Tensor, error) { return tensor.Full([]int{2, 2}, 1, conf) })
+		chk(k, "Eye", cls, "n 2", e([]int{2, 2}), func() (tensor.Tensor, error) { return tensor.Eye(2, conf) })
+		chk(k, "RandU", cls, "dims [2]", e([]int{2}), func() (tensor.Tensor, error) { return tensor.RandU([]int{2}, 0, 1, conf) })
+		chk(k, "RandN", cls, "dims [2]", e([]int{2}), func() (tensor.Tensor, error) { return tensor.RandN([]int{2}, 0, 1, conf) })
+	}
 	// depth 1
 	for _, d := range []struct {
 		v []float64
